@@ -1,6 +1,13 @@
 // C13 http: HTTP/1.1 framing -- parse independent of fragmentation, body bytes exact.
 // Real photon::net::http::Request / Response objects receive from a MockStream that delivers a scripted byte
 // string in scripted fragments. Reference model: the generator knows start line, header list and payload.
+//
+// Layers (enumeration order): A0 all 2^(n-1) fragmentations of the shortest messages; A core messages x every choice of <=2/<=3 cuts;
+// C all fragmentations of windows around every CRLF and of short chunked bodies; B broad product start line x headers x framing with
+// <=1/<=2 cuts; F smallest workable receive buffer; D writer/reader pairing (D0: zero-length write); E1 truncations; E2 bad hex;
+// E4 chunk size larger than data; E3 missing CR/LF; E5 line without colon; E7 all short byte strings; E6/E8 header block / header
+// count around the buffer limit. Second target (-DC13_RXBUF_NONUL): requests parsed from a receive buffer without any NUL byte.
+// Set C13_COUNT=1 to get the number of cases per layer on stderr (shard log).
 #include "seqx.h"
 #include <photon/common/alog.h>
 #include <photon/common/alog-stdstring.h>
@@ -284,8 +291,6 @@ struct Result {
     std::string lookup_err, lookup_case_err;
 };
 
-struct ExpectHdrs { const std::vector<std::pair<std::string, std::string>>* h; };
-
 
 static void snapshot_headers(const Headers& h, std::vector<std::pair<std::string, std::string>>& out) {
     out.clear(); out.reserve(8); int guard = 0;
@@ -467,7 +472,7 @@ static void exec_valid(seqx::Ctx& c, const Msg& m, const Delivery& d, size_t rb,
     if (tolerant && r.rh < 0 && !r.overrun) out = 20;     // small buffer: "no buffer" is an accepted answer
     else out = check_valid(c, m, r, rb);
     uint64_t h = seqx::mix(layer, frame_class(m));
-    h = seqx::mix(h, delivery_class(m.el, d)); h = seqx::mix(h, rb == 1 ? 1 : rb == 2 ? 2 : 3); h = seqx::mix(h, out);
+    h = seqx::mix(h, delivery_class(m.el, d)); h = seqx::mix(h, rb == 1 ? 1 : rb == 2 ? 2 : rb == 7 ? 4 : 3); h = seqx::mix(h, out);
     c.cls(h);
 }
 
@@ -543,7 +548,7 @@ static std::vector<Msg> core_messages(bool thorough) {
     return out;
 }
 
-static void tick(seqx::Ctx& c, const char* name) { static uint64_t last = 0; static int on = -1; if (on < 0) on = getenv("C13_COUNT") != nullptr; if (on) fprintf(stderr, "  %-28s %llu\n", name, (unsigned long long)(c.counter - last)); last = c.counter; }
+static void tick(seqx::Ctx& c, const char* name) { static uint64_t last = 0; static int on = -1; if (on < 0) on = getenv("C13_COUNT") != nullptr; static double t0 = seqx::now_s(); if (on) fprintf(stderr, "  %-28s %llu  t=%.1fs\n", name, (unsigned long long)(c.counter - last), seqx::now_s() - t0); last = c.counter; }
 
 static void enum_valid(seqx::Ctx& c, bool thorough) {
     const std::vector<size_t> RB3 = {1, 2, RB_BIG}, RB2 = {1, RB_BIG}, RB1 = {RB_BIG};
@@ -558,12 +563,18 @@ static void enum_valid(seqx::Ctx& c, bool thorough) {
     }
     tick(c, "A0");
     // A: core messages, every choice of <= 2 (quick) / <= 3 (thorough) cuts, whole, one byte at a time
-    // (thorough: <= 3 cuts for the first message of every framing kind, <= 2 for its 3 other variants)
+    // (thorough: <= 3 cuts for the first two messages of every framing kind, <= 2 for its 2 other variants)
     int kmax = 2;
-    for (auto& m : core) layer_cuts(c, m, thorough && m.variant == 0 ? 3 : 2, m.payload.empty() ? RB2 : RB3, 65535, false, "A-cuts", 11);
+    // (multi-kilobyte payload: read size 1 only with <= 1 cut, sizes 7 and 8192 with more cuts -- 4100 read() calls per case otherwise)
+    const std::vector<size_t> RBL = {7, RB_BIG}, RBONE = {1};
+    for (auto& m : core) {
+        bool big = m.payload.size() > 1000;
+        layer_cuts(c, m, thorough && m.variant <= 1 ? 3 : 2, m.payload.empty() ? RB2 : big ? RBL : RB3, 65535, false, "A-cuts", 11);
+        if (big) layer_cuts(c, m, 1, RBONE, 65535, false, "A-cuts", 11);
+    }
     tick(c, "A");
     // C: all fragmentations of a window around every CRLF / terminator / chunk-size line, and of the whole body framing
-    int W = thorough ? 11 : 8;
+    int W = thorough ? 12 : 8;
     for (auto& m : core) {
         int L = (int)m.wire.size(), last = -100;
         for (int p = 1; p < L; p++) {
@@ -635,7 +646,10 @@ static void exec_bad(seqx::Ctx& c, const Msg& m, int kind, size_t T, const std::
 static void bad_deliveries(seqx::Ctx& c, const Msg& m, int kind, const char* kname, const std::string& what, size_t T, const std::string& wire, const std::string& el,
                            const std::vector<int>& cand, bool k2, const std::vector<size_t>& rbs, uint64_t sub, unsigned cap = 65535) {
     std::string ew;      // escaped input, built lazily (only when a case of this input is ours)
-    auto E = [&]() -> const char* { if (ew.empty()) ew = esc(wire); return ew.c_str(); };
+    auto E = [&]() -> const char* {
+        bool mine = c.has_only ? c.counter == c.only_index : (int)(c.counter % c.nshards) == c.shard;      // what begin() is about to decide
+        if (!mine) return "";
+        if (ew.empty()) ew = esc(wire); return ew.c_str(); };
     int n = (int)cand.size(), L = (int)wire.size();
 #define BAD_FMT "E-%s %s base=%s mode=%s cap=%u rb=%zu delivery=%s cuts=%d,%d input(%d bytes)=\"%s\""
     for (size_t rb : rbs) {
@@ -673,7 +687,7 @@ static void enum_bad(seqx::Ctx& c, bool thorough) {
             std::string w = m.wire.substr(0, T), el = m.el.substr(0, T);
             snprintf(what, sizeof what, "truncated-after=%d(of %zu)", T, m.msg_len);
             std::vector<int> cand; for (int p : m.cand) if (p < T) cand.push_back(p);
-            bad_deliveries(c, m, K_TRUNC, "trunc", what, T, w, el, cand, thorough && !longmsg && m.variant == 0, RB2, T < (int)m.hdr_len ? 0 : m.el[T]);
+            bad_deliveries(c, m, K_TRUNC, "trunc", what, T, w, el, cand, thorough && !longmsg && m.variant <= 1, RB2, T < (int)m.hdr_len ? 0 : m.el[T]);
         }
     }
     tick(c, "F+D+E1");
@@ -685,7 +699,7 @@ static void enum_bad(seqx::Ctx& c, bool thorough) {
             for (char ch : {'g', '-', ' ', 'x', '\r', '\n'}) {
                 std::string w = m.wire; w[p] = ch;
                 snprintf(what, sizeof what, "byte[%zu]('%c' of a chunk-size)->0x%02x", p, m.wire[p], ch);
-                bad_deliveries(c, m, K_BADHEX, "badhex", what, 0, w, m.el, near_positions(m, p, 0, w.size()), thorough && w.size() < 300 && m.variant == 0, RB2, ch * 4 + (m.el[p] == E_LAST));
+                bad_deliveries(c, m, K_BADHEX, "badhex", what, 0, w, m.el, near_positions(m, p, 0, w.size()), thorough && w.size() < 300 && m.variant <= 1, RB2, ch * 4 + (m.el[p] == E_LAST));
             }
             if (m.el[p] != E_LAST && (p + 1 == m.wire.size() || m.el[p + 1] != E_CSIZE)) {          // last digit of a data chunk's size
                 for (const char* repl : {"+1", "+2", "1000", "ffffffffffffffff", "fffffffffffffffff"}) {
@@ -706,7 +720,7 @@ static void enum_bad(seqx::Ctx& c, bool thorough) {
             bool is_lf = p > 0 && m.el[p - 1] == m.el[p];
             std::string w = m.wire, el = m.el; w.erase(p, 1); el.erase(p, 1);
             snprintf(what, sizeof what, "%s-at[%zu]-deleted", is_lf ? "LF" : "CR", p);
-            bad_deliveries(c, m, is_lf ? K_NOLF : K_NOCR, is_lf ? "nolf" : "nocr", what, 0, w, el, near_positions(m, p, -1, w.size()), thorough && w.size() < 300 && m.variant == 0, RB2, m.el[p]);
+            bad_deliveries(c, m, is_lf ? K_NOLF : K_NOCR, is_lf ? "nolf" : "nocr", what, 0, w, el, near_positions(m, p, -1, w.size()), thorough && w.size() < 300 && m.variant <= 1, RB2, m.el[p]);
         }
     tick(c, "E3");
     // E5 header line without colon, inserted at every header position
@@ -727,7 +741,7 @@ static void enum_bad(seqx::Ctx& c, bool thorough) {
         struct G { const Msg* base; size_t keep; const char* alpha; int na; int maxlen; const char* name; };
         G gs[] = {{&rq, 0, A, 8, thorough ? 6 : 4, "garbage-as-request"}, {&rs, 0, A, 8, thorough ? 6 : 4, "garbage-as-response"},
                   {&rq, 16, A, 8, thorough ? 5 : 3, "garbage-after-request-line"}, {&rs, 17, A, 8, thorough ? 5 : 3, "garbage-after-status-line"},
-                  {&cq, cq.hdr_len, B, 7, thorough ? 6 : 5, "garbage-as-chunked-request-body"}, {&cs, cs.hdr_len, B, 7, thorough ? 6 : 5, "garbage-as-chunked-response-body"}};
+                  {&cq, cq.hdr_len, B, 7, thorough ? 7 : 5, "garbage-as-chunked-request-body"}, {&cs, cs.hdr_len, B, 7, thorough ? 7 : 5, "garbage-as-chunked-response-body"}};
         for (auto& g : gs)
             for (int len = 1; len <= g.maxlen; len++) {
                 uint64_t total = 1; for (int i = 0; i < len; i++) total *= g.na;
@@ -859,7 +873,7 @@ static void enum_writer(seqx::Ctx& c, bool thorough) {
                 size_t len = hl + bl;
                 std::vector<int> cuts = {-1, 0};
                 for (size_t q = 1; q < len; q++) if (n <= 40 || q <= hl + 12 || len - q <= 12 || (q >= 4094 && q <= 4098) || (q >= hl + 4094 && q <= hl + 4098)) cuts.push_back((int)q);
-                for (size_t rb : {(size_t)1, (size_t)RB_BIG}) for (int cut : cuts) {
+                for (size_t rb : {(size_t)(n > 1000 ? 7 : 1), (size_t)RB_BIG}) for (int cut : cuts) {
                     if (!c.begin("D-writer %s %s payload=%zu bytes written as pieces [0,%d)[%d,%d)[%d,%zu) via %s; read back: rb=%zu delivery=%s cut=%d",
                                  req ? "Request(POST http://h/a?b=c)" : "Response(200)", chunked ? "Transfer-Encoding:chunked" : "Content-Length", n, a, a, b, b, n,
                                  how ? "one writev()" : "write() per non-empty piece", rb, cut == -1 ? "whole" : cut == 0 ? "one-byte-at-a-time" : "cuts", cut)) continue;
@@ -886,7 +900,7 @@ static void enum_writer(seqx::Ctx& c, bool thorough) {
                         }
                         if (!hok) { c.fail("header-multimap-mismatch", "written headers read back as %zu headers; wire \"%s\"", r.hdrs.size(), esc(cap, 200).c_str()); o = 6; }
                     }
-                    c.cls(seqx::mix(seqx::mix(seqx::mix(200 + req * 2 + chunked, one ? 1 : two ? 2 : 3), how * 10 + (rb == 1)), seqx::mix(cut <= 0 ? cut : (cut > 0 && d.n ? 5 + (size_t)d.p[0] * 64 / (cap.size() + 1) : 4), o + 10 * std::min<size_t>(n, 6))));
+                    c.cls(seqx::mix(seqx::mix(seqx::mix(200 + req * 2 + chunked, one ? 1 : two ? 2 : 3), how * 10 + (rb != RB_BIG)), seqx::mix(cut <= 0 ? cut : (cut > 0 && d.n ? 5 + (size_t)d.p[0] * 64 / (cap.size() + 1) : 4), o + 10 * std::min<size_t>(n, 6))));
                 }
             }
     }
@@ -933,5 +947,5 @@ static void seqx_enumerate(seqx::Ctx& c, bool thorough) {
     enum_bad(c, thorough);    if (dbg) fprintf(stderr, "bad    %llu\n", (unsigned long long)(c.counter - k0));
 }
 
-SEQX_MAIN("C13", "http", "one case = one input byte string + one delivery (fragment boundaries) + one body-read buffer size, run through real Request (server mode) / Response (client mode) objects on a scripted stream. Valid messages: start line x <=3 pool headers (duplicates, mixed case, empty value, no space after colon) x framing {none, Content-Length 0/1/5, 9 chunk layouts incl. [], [1], [0x10], [3,2], [1,4100], extension, trailer, leading zeros, close-delimited 0/1/5, HEAD} x position/case of the framing header x pipelined tail; deliveries: whole, one byte at a time, every choice of <=2 (quick) / <=3 (thorough, first message of each framing kind) cuts at every position, ALL 2^(n-1) fragmentations of the 18/19-byte messages, all fragmentations of an 8/11-position window around every CRLF/terminator/chunk-size line and of whole short chunked bodies; read sizes {1,2,8192}; smallest workable receive buffer as an extra class. Writer/reader: body through Message::write/writev (fixed-length and chunked writer) in every split into 1..3 calls, read back under whole / bytewise / every single cut. Bad input: every truncation point, chunk-size digits replaced, one CR or LF deleted, chunk size larger than the data, line without colon, every byte string up to 4-6 bytes over an 8-symbol alphabet as message / after a start line / as chunked body, header block and header count around the buffer limit. Oracle: generator's expectation (start line, header multimap incl. case-insensitive lookups, payload, read() return codes, end-of-body twice) for valid input; error/EOF within a step bound and body made only of input bytes (payload prefix for truncations) for bad input; ASan on exact-size receive and read buffers. distinct = hash(layer, request/response, framing kind, multiset of syntactic elements the cuts fall in (start line / header name / separator / value / CRLF / between CR and LF / terminator / chunk-size / extension / data / data CRLF / last chunk / trailer / final CRLF / tail), read size class, kind of bad input, outcome class)")
+SEQX_MAIN("C13", "http", "one case = one input byte string + one delivery (fragment boundaries) + one body-read buffer size, run through real Request (server mode) / Response (client mode) objects on a scripted stream. Valid messages: start line x <=3 pool headers (duplicates, mixed case, empty value, no space after colon) x framing {none, Content-Length 0/1/5, 9 chunk layouts incl. [], [1], [0x10], [3,2], [1,4100], extension, trailer, leading zeros, close-delimited 0/1/5, HEAD} x position/case of the framing header x pipelined tail; deliveries: whole, one byte at a time, every choice of <=2 (quick) / <=3 (thorough, first two messages of each framing kind) cuts at every position, ALL 2^(n-1) fragmentations of the 18/19-byte messages, all fragmentations of an 8/12-position window around every CRLF/terminator/chunk-size line and of whole short chunked bodies; read sizes {1,2,8192} (7 instead of 1 for the 4100-byte chunk when more than one cut); smallest workable receive buffer as an extra class. Writer/reader: body through Message::write/writev (fixed-length and chunked writer) in every split into 1..3 calls, read back under whole / bytewise / every single cut. Bad input: every truncation point, chunk-size digits replaced, one CR or LF deleted, chunk size larger than the data, line without colon, every byte string up to 4/6 bytes over an 8-symbol alphabet as message, 3/5 bytes after a start line, 5/7 bytes over a 7-symbol alphabet as chunked body, header block and header count around the buffer limit. Oracle: generator's expectation (start line, header multimap incl. case-insensitive lookups, payload, read() return codes, end-of-body twice) for valid input; error/EOF within a step bound and body made only of input bytes (payload prefix for truncations) for bad input; ASan on exact-size receive and read buffers. distinct = hash(layer, request/response, framing kind, multiset of syntactic elements the cuts fall in (start line / header name / separator / value / CRLF / between CR and LF / terminator / chunk-size / extension / data / data CRLF / last chunk / trailer / final CRLF / tail), read size class, kind of bad input, outcome class)")
 #endif
